@@ -814,6 +814,8 @@ class CacheWorld(object):
       w = self.s.th.get('W')
       if w is None or w.wake is None:
         return            # mid-pass: the counters of the batch in flight are not settled
+    if getattr(self.w.db, 'inflight', None):
+      return              # the writer sleeps inside a (slow) backend call: same thing
     calls = self.w.db.calls
     creates_ok = len([r for r in calls if r[2] == 'create' and r[5] == 'ok'])
     errors = len([r for r in calls if r[2] in ('create', 'write') and r[5] == 'raise'])
